@@ -33,8 +33,8 @@ def dataframe_to_symbols(table: 'pandas.DataFrame') -> List[Symbol]:  # noqa: F8
     """
 
     def convert_to_int_or_none(field: Any) -> Optional[int]:
-        """Convert NaNs to `None`; `int` otherwise."""
-        if np.isnan(field):
+        """Convert `None` and NaNs to `None`; `int` otherwise."""
+        if field is None or np.isnan(field):
             return None
         return int(field)
 
@@ -46,6 +46,12 @@ def dataframe_to_symbols(table: 'pandas.DataFrame') -> List[Symbol]:  # noqa: F8
         entry['type'] = Type(entry['type'])  # Convert to `enum`erated variable type
         entry['lags'] = convert_to_int_or_none(entry['lags'])
         entry['leads'] = convert_to_int_or_none(entry['leads'])
+
+        # Missing strings come back as `None` or NaN, depending on the
+        # `pandas` version: restore `None`
+        for key in ('name', 'equation', 'code'):
+            if not isinstance(entry[key], str):
+                entry[key] = None
 
         symbols.append(Symbol(**entry))
 
